@@ -158,4 +158,31 @@ example : ((arun 100 { tz := none, now := 0 }
      .run 40 100]).log.filter (fun e => e.kind == .start && e.key == 1)).map (·.time) = [10, 20, 30, 40] := by
   decide
 
+/-- **nobody is left waiting while the loop is idle**: when the loop finds nothing to resume up to
+    `limit` (this is when virtual time jumps to `limit`), every supervisor that is still waiting —
+    for a due time or inside a suspended coroutine — wakes strictly later than `limit`; together with
+    `start_time` (a supervisor sleeps until max(due, now)) no job with attempts left is overdue at
+    an idle instant -/
+theorem C17.idle_means_nothing_due (s : AState) (limit : Int) (h : nextTask s limit = none) :
+    ∀ t ∈ s.tasks, isWaiting t = true → limit < t.wake := by
+  intro t ht hw
+  unfold nextTask at h
+  simp only [] at h
+  split at h
+  · rename_i hc
+    have hmem : t ∉ s.tasks.filter (fun t => isWaiting t && decide (t.wake ≤ limit)) := by rw [hc]; simp
+    have : ¬ (isWaiting t && decide (t.wake ≤ limit)) = true := fun hx => hmem (List.mem_filter.mpr ⟨ht, hx⟩)
+    simp only [hw, Bool.true_and, decide_eq_true_eq] at this
+    omega
+  · cases h
+
+/-- … and `runUntil` only stops early (before `limit`) when it runs out of fuel: with fuel left it
+    either resumes the next task or is idle in the sense above -/
+theorem C17.runUntil_idle_or_steps (fuel : Nat) (s : AState) (limit : Int) :
+    (nextTask s limit = none ∧ runUntil (fuel + 1) s limit = { s with now := if s.now ≤ limit then limit else s.now }) ∨
+    (∃ k, nextTask s limit = some k) := by
+  cases h : nextTask s limit with
+  | none => left; exact ⟨rfl, by simp [runUntil, h]⟩
+  | some k => right; exact ⟨k, rfl⟩
+
 end SV
